@@ -20,5 +20,6 @@ namespace c09
     };
     Api *make_api1(); // igris/serialize/archive.h + stdtypes.h (binary_string_writer / binary_buffer_reader)
     Api *make_api1b(); // same, through binary_buffer_writer and the igris::serialize(obj) / igris::deserialize<T>(buffer) helpers
-    Api *make_api2(); // igris/serialize/serializer.h family
+    Api *make_api2(); // igris/serialize/serializer.h family (serializer / deserializer objects)
+    Api *make_api2b(); // same, through the free functions of serialize_archive.h
 }
